@@ -1,0 +1,23 @@
+//go:build verif
+
+package date
+
+// VerifFormatInternals exposes what NewParser derives from one format string (C20): the Go layout,
+// the regular expression text and the three flags.
+func VerifFormatInternals(fmtStr string) (layout, rx string, hasLocation, hasYear, noDate bool) {
+	f := NewParser(fmtStr).formats[0]
+	return f.dLayout, f.dRegexp.String(), f.hasLocation, f.hasYear, f.noDate
+}
+
+// VerifParserFormats lists the format strings of a parser built by NewParser, in order (C20).
+func VerifParserFormats(p interface{}) []string {
+	pp, ok := p.(*parser)
+	if !ok {
+		return nil
+	}
+	r := make([]string, len(pp.formats))
+	for i, f := range pp.formats {
+		r[i] = f.frmt
+	}
+	return r
+}
